@@ -25,3 +25,41 @@ using namespace amc::vec;
 INST_ELEM(ElemNR, uint8_t)
 INST_ELEM(ElemTR, uint8_t)
 INST_ELEM(ElemTC, uint8_t)
+
+// member templates: instantiate the argument shapes that are put under contract
+template <class V, class E>
+void use_member_templates(V &v, const E &e, E &&r) {
+  v.emplace_back(e);
+  v.emplace_back(std::move(r));
+  v.emplace(v.begin(), e);
+  v.emplace(v.begin(), std::move(r));
+}
+template <class V>
+void use_int_emplace(V &v) {
+  v.emplace_back(3);
+  v.emplace(v.begin(), 3);
+}
+template <class V>
+void use_lifetime() {
+  V a;
+  V b(a);
+  V c(std::move(a));
+  b = c;
+  b = std::move(c);
+}
+#define USE_ELEM(E, S) \
+  template void use_member_templates<amc::Vector<E, amc::allocator<E>, S, DynamicGrowingPolicy, 4>, E>(amc::Vector<E, amc::allocator<E>, S, DynamicGrowingPolicy, 4> &, const E &, E &&); \
+  template void use_member_templates<amc::Vector<E, amc::allocator<E>, S, DynamicGrowingPolicy, 0>, E>(amc::Vector<E, amc::allocator<E>, S, DynamicGrowingPolicy, 0> &, const E &, E &&); \
+  template void use_member_templates<amc::Vector<E, EmptyAlloc, S, ExceptionGrowingPolicy, 4>, E>(amc::Vector<E, EmptyAlloc, S, ExceptionGrowingPolicy, 4> &, const E &, E &&); \
+  template void use_lifetime<amc::Vector<E, amc::allocator<E>, S, DynamicGrowingPolicy, 4> >(); \
+  template void use_lifetime<amc::Vector<E, amc::allocator<E>, S, DynamicGrowingPolicy, 0> >(); \
+  template void use_lifetime<amc::Vector<E, EmptyAlloc, S, ExceptionGrowingPolicy, 4> >();
+USE_ELEM(ElemNR, uint8_t)
+USE_ELEM(ElemTR, uint8_t)
+USE_ELEM(ElemTC, uint8_t)
+#define USE_INT(E, S) \
+  template void use_int_emplace<amc::Vector<E, amc::allocator<E>, S, DynamicGrowingPolicy, 4> >(amc::Vector<E, amc::allocator<E>, S, DynamicGrowingPolicy, 4> &); \
+  template void use_int_emplace<amc::Vector<E, amc::allocator<E>, S, DynamicGrowingPolicy, 0> >(amc::Vector<E, amc::allocator<E>, S, DynamicGrowingPolicy, 0> &); \
+  template void use_int_emplace<amc::Vector<E, EmptyAlloc, S, ExceptionGrowingPolicy, 4> >(amc::Vector<E, EmptyAlloc, S, ExceptionGrowingPolicy, 4> &);
+USE_INT(ElemNR, uint8_t)
+USE_INT(ElemTR, uint8_t)
